@@ -15,8 +15,11 @@ class Accumulate(Transform[Gradients, EmptyTensorDict]):
         Accumulates gradients with respect to keys in their ``.grad`` field.
         """
 
+        # Check all keys before modifying any .grad field, so that a rejected call changes nothing.
         for key in gradients.keys():
             _check_expects_grad(key)
+
+        for key in gradients.keys():
             if hasattr(key, "grad") and key.grad is not None:
                 key.grad += gradients[key]
             else:
